@@ -437,6 +437,10 @@ class E2E:
                 continue
             if verdict == 'hang':
                 run.count('%s:hang-not-judged' % self.tag)
+                hs = run.extra.setdefault('hangs_not_judged', [])
+                if len(hs) < 5:
+                    hs.append({'build': self.tag, 'case': cl.describe(c), 'raw_case': {k: v for k, v in c.items() if not k.startswith('_')} if len(json.dumps(c)) < 20000 else 'too large',
+                               'output_tail': (o['stdout'] + o['stderr'])[-400:]})
                 continue
             if verdict.startswith('known:'):
                 fid = verdict.split(':', 1)[1]
